@@ -176,13 +176,24 @@ fn c18_dispatch_one() { dispatch_body(1) }
 #[kani::unwind(12)]
 fn c18_dispatch_two() { dispatch_body(2) }
 
-fn dispatch_body(nconn: usize) {
+// two connections, connection requests only (isolation on the request path, quick tier)
+// @harness props=C18 tier=quick timeout=5400 stubbed=vsock-io
+#[kani::proof]
+#[kani::stub(VirtIOSocket::poll, VirtIOSocket::stub_poll)]
+#[kani::stub(VirtIOSocket::send_packet_to_tx_queue, VirtIOSocket::stub_send_packet)]
+#[kani::unwind(12)]
+fn c18_dispatch_two_request() { dispatch_body_ev(2, 0) }
+
+fn dispatch_body(nconn: usize) { dispatch_body_ev(nconn, 6) }
+/// `only`: restrict the event type (6 = any of the six control events)
+fn dispatch_body_ev(nconn: usize, only: u8) {
     let (mut m, peers, ports, lp) = mk_mgr_n(None, nconn);
     let s0 = [snap(&m.connections[0]), snap(&m.connections[nconn - 1])];
     let src = VsockAddr { cid: kani::any(), port: kani::any() };
     let dst = VsockAddr { cid: kani::any(), port: kani::any() };
     let blen: usize = 0;
-    let et = match kani::any::<u8>() % 6 {
+    let sel: u8 = if only < 6 { only } else { kani::any::<u8>() % 6 };
+    let et = match sel {
         0 => VsockEventType::ConnectionRequest,
         1 => VsockEventType::Connected,
         2 => VsockEventType::Disconnected { reason: DisconnectReason::Reset },
@@ -230,8 +241,14 @@ fn dispatch_body(nconn: usize) {
         }
         match et {
             VsockEventType::ConnectionRequest => {
-                // a request that matches an existing connection: treated per the listening state of the port
-                assert!(n_tx == 1, "C18: request for an existing connection is answered once");
+                // a request that matches an existing connection: handled per the listening state of its port,
+                // and only THAT connection is affected
+                assert!(n_tx == 1 && unsafe { ST_TX_DST[0] } == src, "C18: request for an existing connection is answered once, to the requester");
+                if dst.port == lp {
+                    assert!(unsafe { ST_TX_OP[0] } == 2 && !removed && m.connections[me].established, "C18: request on a listening port is accepted");
+                } else {
+                    assert!(unsafe { ST_TX_OP[0] } == 3 && removed && r == Ok(None), "C18: request on a port nobody listens on is reset and that connection - no other - is removed");
+                }
             }
             VsockEventType::Connected => {
                 assert!(r.as_ref().map(|e| e.is_some()) == Ok(true) && n_tx == 0 && !removed && m.connections[me].established, "C18: a response establishes the connection");
@@ -275,9 +292,14 @@ fn dispatch_body(nconn: usize) {
         }
     }
     core::mem::forget(m);
-    kani::cover!((m1 || nconn == 1 && m0) && et == VsockEventType::CreditRequest);
-    kani::cover!(!m0 && !m1 && et == VsockEventType::ConnectionRequest && dst.cid == GCID && dst.port == lp);
-    kani::cover!(m0 && et == VsockEventType::Disconnected { reason: DisconnectReason::Shutdown } && s0[0].2 > 0);
+    if only == 6 {
+        kani::cover!((m1 || nconn == 1 && m0) && et == VsockEventType::CreditRequest);
+        kani::cover!(!m0 && !m1 && et == VsockEventType::ConnectionRequest && dst.cid == GCID && dst.port == lp);
+        kani::cover!(m0 && et == VsockEventType::Disconnected { reason: DisconnectReason::Shutdown } && s0[0].2 > 0);
+    } else {
+        kani::cover!(m0 && dst.port != lp);
+        kani::cover!(!m0 && !m1 && dst.cid == GCID && dst.port == lp);
+    }
 }
 
 // recv: drains in order, forwards exactly what it drained, closes a shut-down connection once drained
